@@ -376,15 +376,34 @@ class Run:
                                        preempt_prefix=self.world.outdir if self.sc.get("preempt_p") else None,
                                        preempt_p=float(self.sc.get("preempt_p") or 0.0))
 
+        # clients are built BEFORE the threads start (in this thread, in scenario order): the threads share them, and
+        # the harness's own bookkeeping is never touched by two threads
+        built = {}
+        for ai, a in enumerate(self.sc["actors"]):
+            for op in a["ops"]:
+                key = (op["service"], kind, ai if self.sc.get("clients") == "per_actor" else 0)
+                if key in built:
+                    continue
+                try:
+                    self._sync_client(op["service"], kind, ai)
+                    built[key] = None
+                except Exception as e:  # noqa
+                    built[key] = e
+
         def body(ai, a):
             def fn():
                 for op in a["ops"]:
                     if op.get("delay"):
                         CLOCK.advance(op["delay"])
-                    client = self._client_or_event(op, lambda: self._sync_client(op["service"], kind, ai))
+                    key = (op["service"], kind, ai if self.sc.get("clients") == "per_actor" else 0)
+                    if built.get(key) is not None:
+                        _invoke_ev(self, op)
+                        self.sim.ev("raise", op=op["id"], stage="client_construction", **exc_info(built[key]))
+                        continue
+                    client = self.clients.get(key) or self._client_or_event(op, lambda: self._sync_client(op["service"], kind, ai))
                     if client is None:
                         continue
-                    self.cur_channel[op["id"]] = getattr(self.channels.get(self._last_key), "cid", None)
+                    self.cur_channel[op["id"]] = getattr(self.channels.get(key), "cid", None)
                     tok = CURRENT_OP.set(op["id"])
                     try:
                         SYNC_EXEC[op["kind"]](self, client, op)
